@@ -2,6 +2,6 @@
 # priv.sh <check args...> : run ./check from a private rsync copy of /verif (own build lock and
 # coq/gen), against /repo (or $VERIF_REPO).  For development while other builds hold /verif's lock.
 mkdir -p /tmp/vseed
-rsync -a --delete --exclude .git --exclude replays --exclude 'coq/cases' /verif/ /tmp/vseed/priv/
-mkdir -p /tmp/vseed/priv/replays
-cd /tmp/vseed/priv && ./check "$@"
+rsync -a --delete --exclude .git --exclude replays --exclude 'coq/cases' /verif/ /tmp/vseed/priv_${PRIV_TAG:-default}/
+mkdir -p /tmp/vseed/priv_${PRIV_TAG:-default}/replays
+cd /tmp/vseed/priv_${PRIV_TAG:-default} && ./check "$@"
